@@ -611,4 +611,333 @@ theorem mem_sortLangs (x : Nat × String) (l : List (Nat × String)) : x ∈ sor
   | nil => simp
   | cons y rest ih => simp only [List.foldr_cons, mem_insertLang, ih, List.mem_cons]
 
+/-! ### the same under the exact capacity guard of the repaired encoder
+
+`NameDom` bounds the whole storage by 65535 bytes; the repaired `Encode` refuses later: only when
+a NEW string would start beyond offset 65535 or is longer than 65535 bytes (`nameFits`).  The
+round trip holds under exactly that guard. -/
+
+def BInv2 (b : Builder) : Prop :=
+  ∀ s i, idxGet b.idx s = some i →
+    sliceL b.data i s.length = s ∧ i + s.length ≤ b.data.length ∧ i ≤ 65535 ∧ s.length ≤ 65535
+
+theorem BInv2_empty : BInv2 ⟨[], []⟩ := by
+  intro s i h; simp [idxGet] at h
+
+theorem add_spec2 (b : Builder) (s : List Nat) (hb : BInv2 b) (hok : b.addOk s = true) :
+    BInv2 (b.add s).1 ∧ (b.add s).2.2 = s.length ∧
+      sliceL (b.add s).1.data (b.add s).2.1 (b.add s).2.2 = s ∧
+      (b.add s).2.1 + (b.add s).2.2 ≤ (b.add s).1.data.length ∧
+      (b.add s).2.1 ≤ 65535 ∧ (b.add s).2.2 ≤ 65535 := by
+  unfold Builder.addOk at hok
+  unfold Builder.add
+  split
+  · next i hi =>
+    obtain ⟨h1, h2, h3, h4⟩ := hb s i hi
+    have hl : s.length % 65536 = s.length := Nat.mod_eq_of_lt (by omega)
+    simp only [hl]
+    exact ⟨hb, trivial, h1, h2, h3, h4⟩
+  · next hi =>
+    simp only [hi, Bool.and_eq_true, decide_eq_true_eq] at hok
+    have h1 : b.data.length % 65536 = b.data.length := Nat.mod_eq_of_lt (by omega)
+    have h2 : s.length % 65536 = s.length := Nat.mod_eq_of_lt (by omega)
+    simp only [h1, h2]
+    refine ⟨?_, trivial, sliceL_at_end _ _, by simp, hok.1, hok.2⟩
+    intro s' i' h'
+    simp only [idxGet] at h'
+    split at h'
+    · next heq =>
+      cases h'; subst heq
+      exact ⟨sliceL_at_end _ _, by simp, hok.1, hok.2⟩
+    · obtain ⟨g1, g2, g3, g4⟩ := hb s' i' h'
+      refine ⟨?_, by simp only [List.length_append]; omega, g3, g4⟩
+      rw [sliceL_append_left _ _ _ _ g2]; exact g1
+
+def Src2 (pid eid : Nat) (enc : List Nat → List Nat) (F : List Nat) (lang : Nat)
+    (kv : Nat × List Nat) (r : Rec) : Prop :=
+  Src pid eid enc F lang kv r ∧ r.off ≤ 65535 ∧ r.len ≤ 65535
+
+theorem Src2_mono {pid eid enc F lang kv r} (ext : List Nat) (h : Src2 pid eid enc F lang kv r) :
+    Src2 pid eid enc (F ++ ext) lang kv r := ⟨Src_mono ext h.1, h.2⟩
+
+theorem addTable_spec2 (pid eid lang : Nat) (enc : List Nat → List Nat)
+    (view : List (Nat × List Nat)) (b : Builder) (hb : BInv2 b)
+    (hok : addTableOk enc view b = true) (hid : ∀ kv ∈ view, kv.1 < 65536) :
+    BInv2 (addTable pid eid lang enc view b).1 ∧
+    (∀ r ∈ (addTable pid eid lang enc view b).2, ∃ kv ∈ view,
+        Src2 pid eid enc (addTable pid eid lang enc view b).1.data lang kv r) ∧
+    (∀ kv ∈ view, ∃ r ∈ (addTable pid eid lang enc view b).2,
+        Src2 pid eid enc (addTable pid eid lang enc view b).1.data lang kv r) := by
+  induction view generalizing b with
+  | nil => simp [addTable, hb]
+  | cons kv rest ih =>
+    obtain ⟨nid, val⟩ := kv
+    simp only [addTableOk, Bool.and_eq_true] at hok
+    simp only [addTable]
+    obtain ⟨e2, h2⟩ := addTable_extends pid eid lang enc rest (b.add (enc val)).1
+    obtain ⟨hb1, hl, hs, hle, ho, hn⟩ := add_spec2 b (enc val) hb hok.1
+    obtain ⟨hb2, hS, hC⟩ := ih (b.add (enc val)).1 hb1 hok.2
+      (fun kv hkv => hid kv (List.mem_cons_of_mem _ hkv))
+    have hnid : nid % 65536 = nid := Nat.mod_eq_of_lt (hid (nid, val) List.mem_cons_self)
+    have hhead : Src2 pid eid enc (addTable pid eid lang enc rest (b.add (enc val)).1).1.data lang
+        (nid, val) ⟨pid, eid, lang, nid % 65536, (b.add (enc val)).2.1, (b.add (enc val)).2.2⟩ := by
+      rw [h2]
+      exact Src2_mono e2 ⟨⟨rfl, rfl, rfl, hnid, hs, hle⟩, ho, hn⟩
+    refine ⟨hb2, ?_, ?_⟩
+    · intro r hr
+      simp only [List.mem_cons] at hr
+      rcases hr with rfl | hr
+      · exact ⟨(nid, val), List.mem_cons_self, hhead⟩
+      · obtain ⟨kv, hkv, hsrc⟩ := hS r hr
+        exact ⟨kv, List.mem_cons_of_mem _ hkv, hsrc⟩
+    · intro kv hkv
+      simp only [List.mem_cons] at hkv
+      rcases hkv with rfl | hkv
+      · exact ⟨_, List.mem_cons_self, hhead⟩
+      · obtain ⟨r, hr, hsrc⟩ := hC kv hkv
+        exact ⟨r, List.mem_cons_of_mem _ hr, hsrc⟩
+
+theorem addLangs_spec2 (pid eid : Nat) (enc : List Nat → List Nat) (info : List Entry)
+    (order : List (Nat × String)) (b : Builder) (hb : BInv2 b)
+    (hok : addLangsOk pid eid enc info order b = true)
+    (hid : ∀ tag, ∀ kv ∈ tableView info pid tag, kv.1 < 65536) :
+    BInv2 (addLangs pid eid enc info order b).1 ∧
+    (∀ r ∈ (addLangs pid eid enc info order b).2, ∃ lt ∈ order, ∃ kv ∈ tableView info pid lt.2,
+        Src2 pid eid enc (addLangs pid eid enc info order b).1.data lt.1 kv r) ∧
+    (∀ lt ∈ order, ∀ kv ∈ tableView info pid lt.2, ∃ r ∈ (addLangs pid eid enc info order b).2,
+        Src2 pid eid enc (addLangs pid eid enc info order b).1.data lt.1 kv r) := by
+  induction order generalizing b with
+  | nil => simp [addLangs, hb]
+  | cons lt rest ih =>
+    obtain ⟨lang, tag⟩ := lt
+    simp only [addLangsOk, Bool.and_eq_true] at hok
+    simp only [addLangs]
+    obtain ⟨e2, h2⟩ := addLangs_extends pid eid enc info rest
+      (addTable pid eid lang enc (tableView info pid tag) b).1
+    obtain ⟨hb1, hS1, hC1⟩ := addTable_spec2 pid eid lang enc (tableView info pid tag) b hb hok.1 (hid tag)
+    obtain ⟨hb2, hS2, hC2⟩ := ih (addTable pid eid lang enc (tableView info pid tag) b).1 hb1 hok.2
+    refine ⟨hb2, ?_, ?_⟩
+    · intro r hr
+      simp only [List.mem_append] at hr
+      rcases hr with hr | hr
+      · obtain ⟨kv, hkv, hsrc⟩ := hS1 r hr
+        refine ⟨(lang, tag), List.mem_cons_self, kv, hkv, ?_⟩
+        rw [h2]; exact Src2_mono e2 hsrc
+      · obtain ⟨lt, hlt, kv, hkv, hsrc⟩ := hS2 r hr
+        exact ⟨lt, List.mem_cons_of_mem _ hlt, kv, hkv, hsrc⟩
+    · intro lt hlt kv hkv
+      simp only [List.mem_cons] at hlt
+      rcases hlt with rfl | hlt
+      · obtain ⟨r, hr, hsrc⟩ := hC1 kv hkv
+        refine ⟨r, List.mem_append_left _ hr, ?_⟩
+        rw [h2]; exact Src2_mono e2 hsrc
+      · obtain ⟨r, hr, hsrc⟩ := hC2 lt hlt kv hkv
+        exact ⟨r, List.mem_append_right _ hr, hsrc⟩
+
+/-- `NameDom` with the two capacity bounds replaced by the exact guard of the repaired encoder -/
+structure NameDomC (apple ms macOrder winOrder : List (Nat × String)) (info : List Entry)
+    (winEid : Nat) : Prop where
+  apple_ok : tableOK apple = true ∧ keysDistinct apple = true
+  ms_ok : tableOK ms = true ∧ keysDistinct ms = true
+  mac_order : ∀ lt, lt ∈ macOrder ↔ lt ∈ apple
+  win_order : ∀ lt, lt ∈ winOrder ↔ lt ∈ ms
+  keys : keysNodup info
+  plat : ∀ e ∈ info, e.plat = 1 ∨ e.plat = 3
+  mac : ∀ e ∈ info, e.plat = 1 → (∃ lang, (lang, e.tag) ∈ apple) ∧ ∀ c ∈ e.val, macRepresentable c = true
+  win : ∀ e ∈ info, e.plat = 3 → (∃ lang, (lang, e.tag) ∈ ms) ∧ ∀ c ∈ e.val, isScalar c = true
+  ids : ∀ e ∈ info, e.id < 65536
+  eid : winEid = 1 ∨ winEid = 10
+  fits : nameFits macOrder winOrder info winEid = true
+
+theorem name_roundtrip_fits (apple ms macOrder winOrder : List (Nat × String)) (info : List Entry)
+    (winEid : Nat) (h : NameDomC apple ms macOrder winOrder info winEid) :
+    ∃ dec, nameDecodeWith apple ms (nameEncodeWith macOrder winOrder info winEid) = some dec ∧
+      ∀ p t i, getVal dec p t i = getVal info p t i := by
+  rw [nameEncodeWith_eq]
+  have hfits := h.fits
+  simp only [nameFits, nameBuildOk, Bool.and_eq_true, decide_eq_true_eq] at hfits
+  obtain ⟨⟨hok1, hok2⟩, hfr⟩ := hfits
+  -- name the pieces
+  generalize hrs : (nameBuild macOrder winOrder info winEid).2 = rs at hfr ⊢
+  generalize hFd : (nameBuild macOrder winOrder info winEid).1.data = F
+  have hid : ∀ pid tag, ∀ kv ∈ tableView info pid tag, kv.1 < 65536 := by
+    intro pid tag kv hkv
+    obtain ⟨e, he, _, _, _, rfl⟩ := (mem_tableView info pid tag kv).mp hkv
+    exact h.ids e he
+  -- the two passes of the encoder
+  obtain ⟨hbi1, hS1', hC1'⟩ := addLangs_spec2 1 0 macEncode info macOrder ⟨[], []⟩ BInv2_empty hok1 (hid 1)
+  obtain ⟨_, hS2', hC2'⟩ := addLangs_spec2 3 winEid utf16Encode info winOrder
+    (addLangs 1 0 macEncode info macOrder ⟨[], []⟩).1 hbi1 hok2 (hid 3)
+  obtain ⟨ext, hext⟩ := addLangs_extends 3 winEid utf16Encode info winOrder
+    (addLangs 1 0 macEncode info macOrder ⟨[], []⟩).1
+  have hF2 : (addLangs 3 winEid utf16Encode info winOrder
+      (addLangs 1 0 macEncode info macOrder ⟨[], []⟩).1).1.data = F := by
+    rw [← hFd]; rfl
+  have hrs' : rs = (addLangs 1 0 macEncode info macOrder ⟨[], []⟩).2 ++
+      (addLangs 3 winEid utf16Encode info winOrder
+        (addLangs 1 0 macEncode info macOrder ⟨[], []⟩).1).2 := by
+    rw [← hrs]; rfl
+  rw [hF2] at hext hS2' hC2'
+  have hS1 : ∀ r ∈ (addLangs 1 0 macEncode info macOrder ⟨[], []⟩).2, ∃ lt ∈ macOrder,
+      ∃ kv ∈ tableView info 1 lt.2,
+        Src 1 0 macEncode (addLangs 1 0 macEncode info macOrder ⟨[], []⟩).1.data lt.1 kv r := by
+    intro r hr
+    obtain ⟨lt, hlt, kv, hkv, hx⟩ := hS1' r hr
+    exact ⟨lt, hlt, kv, hkv, hx.1⟩
+  have hC1 : ∀ lt ∈ macOrder, ∀ kv ∈ tableView info 1 lt.2,
+      ∃ r ∈ (addLangs 1 0 macEncode info macOrder ⟨[], []⟩).2,
+        Src 1 0 macEncode (addLangs 1 0 macEncode info macOrder ⟨[], []⟩).1.data lt.1 kv r := by
+    intro lt hlt kv hkv
+    obtain ⟨r, hr, hx⟩ := hC1' lt hlt kv hkv
+    exact ⟨r, hr, hx.1⟩
+  have hS2 : ∀ r ∈ (addLangs 3 winEid utf16Encode info winOrder
+      (addLangs 1 0 macEncode info macOrder ⟨[], []⟩).1).2, ∃ lt ∈ winOrder,
+      ∃ kv ∈ tableView info 3 lt.2, Src 3 winEid utf16Encode F lt.1 kv r := by
+    intro r hr
+    obtain ⟨lt, hlt, kv, hkv, hx⟩ := hS2' r hr
+    exact ⟨lt, hlt, kv, hkv, hx.1⟩
+  have hC2 : ∀ lt ∈ winOrder, ∀ kv ∈ tableView info 3 lt.2,
+      ∃ r ∈ (addLangs 3 winEid utf16Encode info winOrder
+        (addLangs 1 0 macEncode info macOrder ⟨[], []⟩).1).2,
+        Src 3 winEid utf16Encode F lt.1 kv r := by
+    intro lt hlt kv hkv
+    obtain ⟨r, hr, hx⟩ := hC2' lt hlt kv hkv
+    exact ⟨r, hr, hx.1⟩
+  have hbound : ∀ r ∈ rs, r.off ≤ 65535 ∧ r.len ≤ 65535 := by
+    intro r hr
+    rw [hrs', List.mem_append] at hr
+    rcases hr with hr | hr
+    · obtain ⟨_, _, _, _, hx⟩ := hS1' r hr; exact hx.2
+    · obtain ⟨_, _, _, _, hx⟩ := hS2' r hr; exact hx.2
+  -- every record decodes to an entry of the Info
+  have hsound : ∀ r ∈ rs, RecFits r ∧ ∃ e ∈ info, e.val ≠ [] ∧
+      decodeRec apple ms (encodeBytes (rs.mergeSort recLe) F) (6 + 12 * (rs.mergeSort recLe).length) r
+        = some (some ⟨e.plat, e.tag, e.id, e.val⟩) := by
+    intro r hr
+    have hbd := hbound r hr
+    rw [hrs', List.mem_append] at hr
+    rcases hr with hr | hr
+    · obtain ⟨lt, hlt, kv, hkv, hsrc⟩ := hS1 r hr
+      have hsrc' : Src 1 0 macEncode F lt.1 kv r := by rw [hext]; exact Src_mono ext hsrc
+      obtain ⟨e, he, hp, ht, hne, rfl⟩ := (mem_tableView info 1 lt.2 kv).mp hkv
+      have hm : (lt.1, lt.2) ∈ apple := (h.mac_order lt).mp hlt
+      have hlang := (tableOK_mem apple h.apple_ok.1 lt.1 lt.2 hm).1
+      obtain ⟨s1, s2, s3, s4, s5, s6⟩ := hsrc'
+      refine ⟨⟨by omega, by omega, by omega, by rw [s4]; exact h.ids e he, by omega, by omega⟩,
+        e, he, hne, ?_⟩
+      have := decodeRec_mac apple ms (rs.mergeSort recLe) F lt.1 lt.2 (e.id, e.val) r
+        h.apple_ok.2 h.apple_ok.1 hm ⟨s1, s2, s3, s4, s5, s6⟩ (h.mac e he hp).2 hne
+      rw [this, hp, ht]
+    · obtain ⟨lt, hlt, kv, hkv, hsrc'⟩ := hS2 r hr
+      obtain ⟨e, he, hp, ht, hne, rfl⟩ := (mem_tableView info 3 lt.2 kv).mp hkv
+      have hm : (lt.1, lt.2) ∈ ms := (h.win_order lt).mp hlt
+      have hlang := (tableOK_mem ms h.ms_ok.1 lt.1 lt.2 hm).1
+      obtain ⟨s1, s2, s3, s4, s5, s6⟩ := hsrc'
+      have he' := h.eid
+      refine ⟨⟨by omega, by omega, by omega, by rw [s4]; exact h.ids e he, by omega, by omega⟩,
+        e, he, hne, ?_⟩
+      have := decodeRec_win apple ms (rs.mergeSort recLe) F winEid lt.1 lt.2 (e.id, e.val) r h.eid
+        h.ms_ok.2 h.ms_ok.1 hm ⟨s1, s2, s3, s4, s5, s6⟩ (h.win e he hp).2 hne
+      rw [this, hp, ht]
+  -- every non-empty entry of the Info has a record
+  have hcomplete : ∀ e ∈ info, e.val ≠ [] → ∃ r ∈ rs,
+      decodeRec apple ms (encodeBytes (rs.mergeSort recLe) F) (6 + 12 * (rs.mergeSort recLe).length) r
+        = some (some ⟨e.plat, e.tag, e.id, e.val⟩) := by
+    intro e he hne
+    rcases h.plat e he with hp | hp
+    · obtain ⟨⟨lang, hm⟩, hrep⟩ := h.mac e he hp
+      have hlt : (lang, e.tag) ∈ macOrder := (h.mac_order _).mpr hm
+      have hkv : (e.id, e.val) ∈ tableView info 1 e.tag :=
+        (mem_tableView info 1 e.tag _).mpr ⟨e, he, hp, rfl, hne, rfl⟩
+      obtain ⟨r, hr, hsrc⟩ := hC1 (lang, e.tag) hlt (e.id, e.val) hkv
+      have hsrc' : Src 1 0 macEncode F lang (e.id, e.val) r := by rw [hext]; exact Src_mono ext hsrc
+      refine ⟨r, by rw [hrs']; exact List.mem_append_left _ hr, ?_⟩
+      have := decodeRec_mac apple ms (rs.mergeSort recLe) F lang e.tag (e.id, e.val) r
+        h.apple_ok.2 h.apple_ok.1 hm hsrc' hrep hne
+      rw [this, hp]
+    · obtain ⟨⟨lang, hm⟩, hsc⟩ := h.win e he hp
+      have hlt : (lang, e.tag) ∈ winOrder := (h.win_order _).mpr hm
+      have hkv : (e.id, e.val) ∈ tableView info 3 e.tag :=
+        (mem_tableView info 3 e.tag _).mpr ⟨e, he, hp, rfl, hne, rfl⟩
+      obtain ⟨r, hr, hsrc'⟩ := hC2 (lang, e.tag) hlt (e.id, e.val) hkv
+      refine ⟨r, by rw [hrs']; exact List.mem_append_right _ hr, ?_⟩
+      have := decodeRec_win apple ms (rs.mergeSort recLe) F winEid lang e.tag (e.id, e.val) r h.eid
+        h.ms_ok.2 h.ms_ok.1 hm hsrc' hsc hne
+      rw [this, hp]
+  -- the decoder on the encoder's bytes
+  have hlen : (rs.mergeSort recLe).length = rs.length := List.length_mergeSort rs
+  have hmem : ∀ r, r ∈ rs.mergeSort recLe ↔ r ∈ rs := fun r => List.mem_mergeSort
+  rw [decode_encodeBytes apple ms (rs.mergeSort recLe) F (by rw [hlen]; exact hfr)
+    (fun r hr => (hsound r ((hmem r).mp hr)).1)]
+  rw [decodeLoop_ok _ _ _ _ _ _ (fun r hr => by
+    obtain ⟨_, e, _, _, hd⟩ := hsound r ((hmem r).mp hr)
+    rw [hd]; simp)]
+  refine ⟨_, rfl, ?_⟩
+  intro p t i
+  apply getVal_of_all
+  · intro x hx hp ht hi
+    simp only [List.append_nil, List.mem_reverse, List.mem_filterMap] at hx
+    obtain ⟨r, hr, hfx⟩ := hx
+    obtain ⟨_, e, he, _, hd⟩ := hsound r ((hmem r).mp hr)
+    rw [hd] at hfx
+    simp only [flat, Option.some.injEq] at hfx
+    subst hfx
+    simp only at hp ht hi ⊢
+    rw [← hp, ← ht, ← hi]
+    exact (getVal_of_mem info h.keys e he).symm
+  · intro hv
+    obtain ⟨e, he, hp, ht, hi, hval⟩ := getVal_ne_nil_mem info p t i hv
+    obtain ⟨r, hr, hd⟩ := hcomplete e he (by rw [hval]; exact hv)
+    refine ⟨⟨e.plat, e.tag, e.id, e.val⟩, ?_, hp, ht, hi⟩
+    simp only [List.append_nil, List.mem_reverse, List.mem_filterMap]
+    exact ⟨r, (hmem r).mpr hr, by rw [hd]; rfl⟩
+
+/-- the domain of the name-table round trip WITHOUT any capacity bound -/
+structure NameDomBase (apple ms macOrder winOrder : List (Nat × String)) (info : List Entry)
+    (winEid : Nat) : Prop where
+  apple_ok : tableOK apple = true ∧ keysDistinct apple = true
+  ms_ok : tableOK ms = true ∧ keysDistinct ms = true
+  mac_order : ∀ lt, lt ∈ macOrder ↔ lt ∈ apple
+  win_order : ∀ lt, lt ∈ winOrder ↔ lt ∈ ms
+  keys : keysNodup info
+  plat : ∀ e ∈ info, e.plat = 1 ∨ e.plat = 3
+  mac : ∀ e ∈ info, e.plat = 1 → (∃ lang, (lang, e.tag) ∈ apple) ∧ ∀ c ∈ e.val, macRepresentable c = true
+  win : ∀ e ∈ info, e.plat = 3 → (∃ lang, (lang, e.tag) ∈ ms) ∧ ∀ c ∈ e.val, isScalar c = true
+  ids : ∀ e ∈ info, e.id < 65536
+  eid : winEid = 1 ∨ winEid = 10
+
+/-- the checked encoder returns bytes exactly when the table fits, and then they are the bytes of
+`nameEncodeWith` -/
+theorem nameEncodeChecked_ok_iff (macOrder winOrder : List (Nat × String)) (info : List Entry)
+    (winEid : Nat) (b : List Nat) :
+    nameEncodeCheckedWith macOrder winOrder info winEid = .ok b ↔
+      nameFits macOrder winOrder info winEid = true ∧ b = nameEncodeWith macOrder winOrder info winEid := by
+  unfold nameEncodeCheckedWith
+  cases hf : nameFits macOrder winOrder info winEid with
+  | true =>
+    simp only [if_true, Outcome.ok.injEq, true_and]
+    exact eq_comm
+  | false =>
+    simp only [Bool.false_eq_true, if_false, false_and]
+    constructor
+    · intro h; cases h
+    · intro h; exact h.elim
+
+/-- **no silent loss**: for every Info of the domain — whatever its size — the encoder either
+refuses loudly or writes a table from which `Decode` returns exactly the stored strings -/
+theorem name_checked_roundtrip (apple ms macOrder winOrder : List (Nat × String)) (info : List Entry)
+    (winEid : Nat) (h : NameDomBase apple ms macOrder winOrder info winEid) :
+    (∃ s, nameEncodeCheckedWith macOrder winOrder info winEid = .panic s) ∨
+    (∃ b dec, nameEncodeCheckedWith macOrder winOrder info winEid = .ok b ∧
+      nameDecodeWith apple ms b = some dec ∧ ∀ p t i, getVal dec p t i = getVal info p t i) := by
+  cases hf : nameFits macOrder winOrder info winEid with
+  | false =>
+    left
+    exact ⟨"name.Encode", by simp [nameEncodeCheckedWith, hf]⟩
+  | true =>
+    right
+    obtain ⟨dec, hd, hg⟩ := name_roundtrip_fits apple ms macOrder winOrder info winEid
+      ⟨h.apple_ok, h.ms_ok, h.mac_order, h.win_order, h.keys, h.plat, h.mac, h.win, h.ids, h.eid, hf⟩
+    exact ⟨nameEncodeWith macOrder winOrder info winEid, dec, by simp [nameEncodeCheckedWith, hf], hd, hg⟩
+
 end SfntV.Names
